@@ -304,6 +304,12 @@ def h_tuple(kind):
         x = args[0]
         if isinstance(x, Tup):
             return Tup(x.items, kind)
+        if isinstance(x, Poly) and x.single_atom() is not None:
+            # tuple(record): the fields of a NamedTuple in order
+            from .interp import RECORD_FIELDS
+            fields = RECORD_FIELDS.get(x.single_atom())
+            if fields and all(nf.attr(x, f_).single_atom() in st.heap for f_ in fields):
+                return Tup([st.heap[nf.attr(x, f_).single_atom()] for f_ in fields], kind)
         return x
     return h
 
@@ -736,6 +742,30 @@ def h_outer_sum(sign):
     return h
 
 
+def h_ix(ip, st, args, kw, node):
+    """np.ix_(a, b): the open mesh (a[:, None], b[None, :])"""
+    if 1 <= len(args) <= 3 and not kw and all(isinstance(a, Poly) for a in args):
+        n = len(args)
+        full = Slice(NONE, NONE)
+        return Tup([nf.index(a, Tup([full if j == i else NONE for j in range(n)])) if n > 1 else a for i, a in enumerate(args)])
+    return app('numpy.ix_', *[a if isinstance(a, (Poly, Tup, Const)) else P(a) for a in args], **kw)
+
+
+def h_norm(ip, st, args, kw, node):
+    """np.linalg.norm of a short vector of dimensions: the root of the sum of their squares"""
+    x = args[0] if args else None
+    if isinstance(x, Poly) and hasattr(ip, 'shape_items'):
+        x = ip.shape_items(x)
+    if isinstance(x, Tup) and x.items and len(args) == 1 and not kw and all(isinstance(i, Poly) and _dimlike(i) for i in x.items):
+        tot = Poly.const(0)
+        for i in x.items:
+            tot = tot + i * i
+        return tot.pow(Fraction(1, 2))
+    return app('linalg.norm', *[a if isinstance(a, (Poly, Tup, Const)) else P(a) for a in args], **kw)
+
+
+HANDLERS['numpy.ix_'] = h_ix
+HANDLERS['numpy.linalg.norm'] = h_norm
 HANDLERS['numpy.add.outer'] = h_outer_sum(1)
 HANDLERS['numpy.subtract.outer'] = h_outer_sum(-1)
 HANDLERS['numpy.ravel'] = lambda ip, st, a, kw, node: app('m:ravel', P(a[0]))
